@@ -1,6 +1,6 @@
 (* C15: jitunion.  Invariant throughout: 0 <= i <= m, 0 <= j <= n, 0 <= ct <= i + j, and a write
    only happens when one more interval of set 1 or set 2 is still to be consumed. *)
-From Coq Require Import ZArith QArith String List Bool Lia ZifyBool.
+From Coq Require Import ZArith QArith String List Bool Lia.
 From Verif Require Import Jit.Lang Jit.Interp Jit.Safety Jit.Tactics Gen.Kernels.
 Import ListNotations.
 Open Scope Z_scope.
